@@ -663,6 +663,18 @@ static int probe(const char* k) {
     { Variant* x = new Variant(l); const Variant& cx = *x; *x = cx.toList().front(); int got = x->toInt(); int t = (int)x->getType(); delete x; if (t != Variant::intType || got != 42) fail(k, "x = x.toList().front() left type %d value %d", t, got); }
     { Variant* x = new Variant(l); const Variant& cx = *x; *x = cx.toList().back(); String got = x->toString(); delete x; if (!(got == String("tail"))) fail(k, "x = x.toList().back() left \"%s\"", (const char*)got); }
     return 0; }
+  // NOT generated by the histories (see assumptions): typed overload given a container that lives inside an element of the receiver's own, solely owned payload.
+  // List/Array/HashMap::operator= clear the destination first, which destroys the element holding the argument (heap-use-after-free on the pinned tree).
+  if (!strncmp(k, "Variant.operator=(list)/arg=list-inside-own-element", 51)) {
+    setctx("Variant.operator=(list)/arg=list-inside-own-element");
+    List<Variant> in; in.append(Variant(3.5)); in.append(Variant(String("x")));
+    List<Variant> l; l.append(Variant(in)); l.append(Variant(2));
+    Variant* x = new Variant(l); const Variant& cx = *x;
+    x->toList().front().toList();                 // the inner list is now solely owned by the element
+    *x = cx.toList().front().toList();
+    size_t n = cx.toList().size(); int t = (int)x->getType(); delete x;
+    if (t != Variant::listType || n != 2) fail(k, "x = x.toList().front().toList() left type %d with %lu elements instead of the inner list of 2", t, (unsigned long)n);
+    return 0; }
   harnessBug("unknown probe %s", k);
 }
 
